@@ -23,7 +23,8 @@ def run_command(command_func, config_file, server_names, user_specified=None):
         # Create all server connections.
         for sname in server_names:
             try:
-                server_params = await load_config(config_file, sname)
+                # load_config returns (parameters, per-server timeout)
+                server_params, _server_timeout = await load_config(config_file, sname)
                 cm = stdio_client(server_params)
                 streams = await cm.__aenter__()
                 context_managers.append((cm, streams))
